@@ -179,8 +179,6 @@ def generate(tier, rng):
                 if n >= 2:
                     for kind in ('bin', 'bindot', 'hex'):
                         for mode in ('value', 'raw'):
-                            if mode == 'raw' and kind == 'bindot':
-                                continue
                             route = rng.choice(['ctor', 'setval', 'frombin', 'frombin_fn'] + (['call'] if mode == 'value' else []))
                             if kind == 'hex' and route.startswith('frombin'):
                                 route = 'ctor'
@@ -208,8 +206,6 @@ def generate(tier, rng):
         else:
             kind = rng.choice(['bin', 'bindot', 'hex'])
             mode = 'value' if (n <= 53 and rng.random() < 0.5) else 'raw'
-            if mode == 'raw' and kind == 'bindot':
-                kind = 'bin'
             route = rng.choice(['ctor', 'setval', 'frombin', 'frombin_fn'] + (['call'] if mode == 'value' else []))
             if kind == 'hex' and route.startswith('frombin'):
                 route = 'setval'
